@@ -41,7 +41,8 @@ SHIPPED_SYMS = {"m", "k", "s", "d", "da", "L"}
 NAMES = ["vfa", "vfb", "vfc", "vfd", "meter", "kilo", "length", "second", "vf e", ""]
 SYMS = ["va", "vb", "vc", "vd", "m", "k", "L", "s", "v x", "", "d", "da"]
 MODS = [m for m in SHIPPED_MODULES]
-OPS = ["anon_dim", "name_dim_ctor", "derive_dim", "anon_prefix", "name_prefix", "define_unit", "anon_unit", "derive_unit",
+LOOKUPS = ["va", "vb", "vc", "vd", "kva", "kvb", "mvc", "hh", "ha", "cd", "nmi", "min.", "Pa", "TR", "dam", "kt", "dm", "hm", "vfa", "vfb"]
+OPS = ["lookup", "anon_dim", "name_dim_ctor", "derive_dim", "anon_prefix", "name_prefix", "define_unit", "anon_unit", "derive_unit",
        "alias", "alias_bad", "import", "define_dim"]
 
 
@@ -54,7 +55,7 @@ def budget(tier):
 
 
 def strategy(tier):
-    OP = st.sampled_from(OPS + ["anon_prefix", "name_prefix", "anon_dim", "derive_dim", "alias", "define_unit", "derive_unit", "import"])
+    OP = st.sampled_from(OPS + ["lookup", "anon_prefix", "name_prefix", "anon_dim", "derive_dim", "alias", "define_unit", "derive_unit", "import"])
     I = st.integers(0, 999)
     step = st.tuples(OP, I, I, I, I).map(list)
     return st.builds(lambda steps: {"steps": steps}, st.lists(step, min_size=4, max_size=25))
@@ -64,6 +65,10 @@ def enumerate_cases(tier):
     # every shipped module imported first, alone, then all the rest (import-order configurations)
     cases = [{"steps": [["import", i, 0, 0, 0]]} for i in range(len(MODS))]
     cases.append({"steps": []})
+    # every interesting text looked up after si alone is imported, before the modules that
+    # declare it as a symbol
+    n = len(LOOKUPS)
+    cases.append({"steps": [["import", MODS.index("si"), 0, 0, 0]] + [["lookup", i, (i + 1) % n, 0, 0] for i in range(0, n, 2)]})
     # the anonymous-then-named prefix shapes for every shipped prefix exponent
     for e in (-1, 1, 2, -2, 3, -3, 6, 10, 20):
         for base in (10, 2):
@@ -115,6 +120,11 @@ class Run:
             had_name = getattr(self_, "name", None) if getattr(self_, "_initialized", False) else None
             had_symbol = getattr(self_, "symbol", None) if getattr(self_, "_initialized", False) else None
             orig_pinit(self_, base, exponent, name, symbol)
+            if getattr(self_, "base", None) != base or getattr(self_, "exponent", None) != exponent:
+                # Prefix(base, 0, ...) is the identity prefix: not a declaration for it
+                if (name and getattr(self_, "name", None) == name) or (symbol and getattr(self_, "symbol", None) == symbol):
+                    run.clashes.append(("Prefix", "identity-adopted", str(name or symbol), "Prefix(base, 0)"))
+                return
             if had_name in (None, name):
                 run._declare("Prefix", "name", name, self_, run.current_call or "Prefix()")
             if had_symbol in (None, symbol):
@@ -250,6 +260,7 @@ def run_case(case) -> core.Outcome:
     dims = [m.Length, m.Time, m.Mass, m.Area, m.Speed]
     units = [m.One]
     anon_prefixes = []
+    named_prefixes = {}
     interfering = False
     named_something = False
     nontrivial_keys = set()
@@ -308,12 +319,27 @@ def run_case(case) -> core.Outcome:
                     base, e = anon_prefixes[d % len(anon_prefixes)]
                     nontrivial_keys.add(("name_prefix", "anonymous-first"))
                 else:
-                    base, e = 7, (d % 9) + 1
+                    base, e = 7, (d % 10)  # e == 0 denotes the identity prefix
                 nm = name if name in ("vfa", "vfb", "vfc", "vfd", "kilo") else "vfp" + str(a % 3)
                 sy = sym if sym in ("va", "vb", "vc", "vd", "k", "d") else "vq" + str(b % 3)
                 if nm == "kilo" or sy in ("k", "d"):
                     r.w.load("si")
-                m.Prefix(base, e, name=nm, symbol=sy)
+                # a prefix may get its name and its symbol in two separate declarations
+                prev = named_prefixes.get((base, e))
+                if prev is not None:
+                    nm = prev[0] or nm
+                    sy = prev[1] or sy
+                part = (a + b + c) % 4
+                kw = {}
+                if part != 2:
+                    kw["name"] = nm
+                if part != 1:
+                    kw["symbol"] = sy
+                m.Prefix(base, e, **kw)
+                if e != 0:
+                    named_prefixes[(base, e)] = (kw.get("name") or (prev[0] if prev else None), kw.get("symbol") or (prev[1] if prev else None))
+                    if prev is not None:
+                        nontrivial_keys.add(("name_prefix", "second-declaration-completes-it"))
             elif op == "define_unit":
                 r.current_call = "Unit.define"
                 u = m.Unit.define(dims[c % len(dims)], name, sym)
@@ -334,6 +360,16 @@ def run_case(case) -> core.Outcome:
             elif op == "alias_bad":
                 r.current_call = "Unit.alias"
                 units[c % len(units)].alias(name=name or "vfz", symbol=BadSymbol(sym or "vz"))
+            elif op == "lookup":
+                # resolving / parsing a text *before* something declares it must not influence
+                # what it resolves to afterwards
+                for text in (LOOKUPS[a % len(LOOKUPS)], LOOKUPS[b % len(LOOKUPS)]):
+                    for fn in (m.Unit.resolve_symbol, m.Unit.parse):
+                        try:
+                            fn(text)
+                        except Exception:
+                            pass
+                nontrivial_keys.add(("lookup-before-declaration",))
             elif op == "import":
                 r.current_call = None
                 mod = r.w.load(MODS[a % len(MODS)])
